@@ -53,7 +53,10 @@ def _menu(name, c, A):
         Te = lambda r: init.Te(r, c.CTe, c.kTe, c.deltaRTe, c.rp)                      # noqa
         g = lambda r: init.n0deriv_normalised(r, c.kN0, c.rp, c.deltaRN0)              # noqa
         return dict(A=lambda r: A, B=lambda r: -(1 / r + g(r)), C=lambda r: 1 / Te(r), D=lambda r: -1 / r ** 2, E=lambda r: 1 / n0(r))
-    return dict(A=lambda r: A, B=lambda r: 0.3 * r - 1.0, C=lambda r: 0.5 + 0.1 * r * r, D=lambda r: -(1.0 + 0.2 * r), E=lambda r: 2.0 - 0.1 * r)
+    # scalar-only callables (a conditional, math.*): the solver must evaluate user functions point by point
+    import math
+    return dict(A=lambda r: A, B=lambda r: (0.3 * r - 1.0) if r > 0 else 0.0, C=lambda r: (0.5 + 0.1 * r * r) if r > 0 else 0.0,
+                D=lambda r: -(1.0 + 0.2 * math.sqrt(r * r)), E=lambda r: (2.0 - 0.1 * r) if r > 0 else 0.0)
 
 
 def _dense_reference(S, breaks, nq_deg, M):
